@@ -23,6 +23,9 @@ CommitDevs(l0, e) ==
        ELSE One(EEq(IAff(e.out), want), l0, "C05", <<"Commit differs from sum v_i G_i", e.cls, e.idx>>, sig("value")) \o
             One(e.bytes = EEnc(want), l0, "C05", <<"bytes of the commitment differ from the encoding of sum v_i G_i", e.cls>>, sig("bytes"))) \o
       (IF Has(e, "ms") THEN One(~e.ms_err /\ IValid(e.ms) /\ EEq(IAff(e.ms), want), l0, "C05", <<"MultiScalar over the SRS differs from sum v_i G_i", e.cls>>, sig("multiscalar")) ELSE <<>>) \o
+      (IF e.cls = "reuse" /\ IValid(e.out)
+       THEN One(EEq(IAff(e.out), want), l0, "C13", "Commit of a slice that was changed in place since its last use gives the result of other contents (dependence on earlier calls)", sig("history"))
+       ELSE <<>>) \o
       One(e.input_unchanged, l0, "C13", "Commit modified its input vector", sig("input")) \o
       One(~Has(e, "tails_unchanged") \/ e.tails_unchanged, l0, "C13", "Commit wrote into the spare capacity of the caller's slice", sig("capacity"))
 LinDevs(l0, e) ==
